@@ -6,6 +6,10 @@
 
      LRegistry   the template.Registry behind the Tofu: templates, syntax
                  trees (including every PrintNode.Directives list), sources
+     LFiles      the same registry's SoyFiles: the tree of every file, which
+                 soyjs.Write walks (the same Go objects as the template
+                 bodies; a separate location only because the two models take
+                 them as separate values -- nobody writes either)
      LConfig     the package-level registries a render consults
                  (ObligatoryPrintDirectiveNames; PrintDirectives and Funcs are
                  tables of Generated/Tables.v in the model)
@@ -34,11 +38,11 @@
 From Soy Require Import Model.Bytes Model.Values Model.Outcome Model.Ast Model.Interp Model.Conc.
 Open Scope N_scope.
 
-Inductive rloc := LRegistry | LConfig | LMessages | LHeap | LOwn (i : nat).
+Inductive rloc := LRegistry | LFiles | LConfig | LMessages | LHeap | LOwn (i : nat).
 
 Definition rloc_eqb (a c : rloc) : bool :=
   match a, c with
-  | LRegistry, LRegistry | LConfig, LConfig | LMessages, LMessages | LHeap, LHeap => true
+  | LRegistry, LRegistry | LFiles, LFiles | LConfig, LConfig | LMessages, LMessages | LHeap, LHeap => true
   | LOwn i, LOwn j => Nat.eqb i j
   | _, _ => false
   end.
@@ -52,11 +56,15 @@ Fixpoint cheap_get (h : cheap) (id : N) : option (list (bstr * value)) :=
   | (k, m) :: r => if k =? id then Some m else cheap_get r id
   end.
 
+(* a SoyFileNode: name and children *)
+Record jfile := { jf_name : bstr; jf_body : list node }.
+
 Inductive sval :=
 | SRegistry (r : registry)
 | SConfig (oblig : list bstr)
 | SMessages (m : option msg_bundle)
 | SHeap (h : cheap)
+| SFiles (fs : list jfile)        (* Registry.SoyFiles: the processed tree of every file (what soyjs.Write walks) *)
 | SClobbered.                     (* content after a write the model does not describe *)
 
 (* one call of Renderer.Execute *)
@@ -168,5 +176,6 @@ Definition bundle_store (reg : registry) (oblig : list bstr) (msgs : option msg_
            | LConfig => SConfig oblig
            | LMessages => SMessages msgs
            | LHeap => SHeap h
+           | LFiles => SClobbered      (* see bundle_store_files of Model/ConcJs.v *)
            | LOwn _ => SClobbered
            end.
